@@ -277,7 +277,7 @@ harness_op(int argc, char **argv)
         size_t B = parse_u64(argv[3]), F = parse_u64(argv[4]);
         bool m8 = strcmp(argv[1], "8") == 0, m16 = strcmp(argv[1], "16") == 0;
         bool ser = strcmp(argv[2], "serial") == 0, tcp = strcmp(argv[2], "tcp") == 0;
-        if (!(m8 || m16) || !(ser || tcp) || B <= F) { printf("bad-op"); return; }
+        if (!(m8 || m16) || !(ser || tcp) || B == 0) { printf("bad-op"); return; }
         harness_reset();
         regp_init(&p);
         mem16 = m16;
